@@ -55,6 +55,9 @@ META["rule"] += (
 META["rule"] += (
     " " + 'Added after the sixth round: series held as float32 when exact and in strided / reversed / column layouts; 30 % of the affine relations change the units by 2^+-60 .. 2^+-90 (values) with 2^+-30 .. 2^+-50 (times), same direction.')
 
+META["rule"] += (
+    " " + 'Added after the seventh round: 30 % of the constructor calls are positional in the documented order.')
+
 def _eq(a, b):
     a = np.asarray(a, dtype=float)
     b = np.asarray(b, dtype=float)
@@ -107,10 +110,17 @@ def check_series(ctx, VG, x, t, horizontal, missing, cid, relations=True,
         xa = big[:, 1]
     if lay in (1, 2, 3):
         ctx.count("series_held_in_a_strided_layout")
-    ok, g = ctx.call(VG, xa,
-                     timings=None if t is None else np.array(t, dtype=float),
-                     missing_values=as_flag(missing),
-                     horizontal=as_flag(horizontal), silence_level=3)
+    targ = None if t is None else np.array(t, dtype=float)
+    if rf.random() < 0.3:
+        # the arguments in the documented positional order
+        # (time_series, timings, missing_values, horizontal)
+        ctx.count("constructor_called_positionally")
+        ok, g = ctx.call(VG, xa, targ, as_flag(missing),
+                         as_flag(horizontal), silence_level=3)
+    else:
+        ok, g = ctx.call(VG, xa, timings=targ,
+                         missing_values=as_flag(missing),
+                         horizontal=as_flag(horizontal), silence_level=3)
     ctx.evals()
     case = {"x": x, "t": t, "horizontal": horizontal, "missing": missing}
     if not ok:
